@@ -489,7 +489,7 @@ Inductive grule :=
 | RTermOfFactor      (* geometry_term : geometry_factor *)
 | RTermPad           (* geometry_term : geometry_term padding *)
 | RInterPad          (* geometry_term : geometry_term padding geometry_factor *)
-| RInterImplicit     (* geometry_term : geometry_term geometry_factory *)
+| RInterImplicit     (* geometry_term : geometry_term geometry_factor   ( )( ), 1( ), ( )#n *)
 | RShortcut          (* geometry_term : geometry_term REPEAT | MULTIPLY | INTERPOLATE ... : not modelled *)
 | RExprOfTerm        (* geometry_expr : geometry_term *)
 | RUnion             (* geometry_expr : geometry_expr union geometry_term *)
@@ -512,7 +512,7 @@ Definition geom_rules : list (gprod * grule) := [
   (("geometry_term", ["geometry_term"; "NUM_MULTIPLY"]), RShortcut);
   (("geometry_term", ["geometry_term"; "REPEAT"]), RShortcut);
   (("geometry_term", ["geometry_term"; "NUM_REPEAT"]), RShortcut);
-  (("geometry_term", ["geometry_term"; "geometry_factory"]), RInterImplicit);
+  (("geometry_term", ["geometry_term"; "geometry_factor"]), RInterImplicit);
   (("geometry_term", ["geometry_term"; "padding"; "geometry_factor"]), RInterPad);
   (("geometry_factor", ["COMPLEMENT"; "geometry_factory"]), RComplement);
   (("geometry_factor", ["geometry_factory"]), RFactorOfFactory);
